@@ -210,6 +210,44 @@ def run(ctx):
             meta.append((p, length, segs, ext3, sk))
             if j % 2 == 0:
                 volatile.add(p)       # writeback may change the extent map between two readings: oracle only, no model comparison
+        # files that are HALF written back: some data synced (allocated on disk), some written a moment ago (delayed allocation, no
+        # physical address yet) at logically EARLIER and interleaved offsets — logical order is the only order that counts
+        for j in range(4 if ctx.quick else 24):
+            p = f'{d}/mixed{j}'
+            K4 = 4096
+            first = [((3 + 8 * q) * 8 * K4, (3 + 8 * q) * 8 * K4 + rng.choice([1, 2]) * K4) for q in range(rng.choice([2, 3, 5]))]
+            fsutil.make_file(p, 1 << 20, first, seed=300 + j)
+            fd = os.open(p, os.O_RDWR); os.fsync(fd)
+            later = [(0, K4), (8 * K4, 9 * K4)] + [((7 + 8 * q) * 8 * K4, (7 + 8 * q) * 8 * K4 + K4) for q in range(2)]
+            for a_, b_ in later:
+                os.pwrite(fd, fsutil.lcg_bytes(b_ - a_, 500 + j), a_)
+            os.close(fd)
+            segs = sorted(first + later)
+            ext = fsutil.fiemap(p); sk = fsutil.seek_segments(p); ext3 = [(a, b, s_) for a, b, s_, _ in ext]
+            ctx.count('file.half_written_back')
+            reqs_p += [f'file-extents {p}', f'file-segments {p}', f'file-sparse {p}']
+            st = os.stat(p)
+            reqs_m += [f'pages 32 {fmt(ext3)}', 'segments %d %s' % (1 << 20, ' '.join(f'{a}-{b}u' for a, b in sk)), f'sparse {st.st_blocks} {st.st_size}']
+            meta.append((p, 1 << 20, segs, ext3, sk)); volatile.add(p)
+        # an extent that starts exactly where the previous one ENDS, placed around the page boundaries of the extent map (the
+        # 32nd/33rd, 64th/65th extent): k separated blocks, then a preallocated run whose second half is written and synced
+        for k in ((30, 31, 32, 63) if ctx.quick else (29, 30, 31, 32, 33, 61, 62, 63, 64, 65, 95, 96)):
+            p = f'{d}/touch{k}'
+            K4 = 4096
+            segs = [(2 * q * K4, (2 * q + 1) * K4) for q in range(k)]
+            base_ = (2 * k + 2) * K4
+            fsutil.make_file(p, base_ + 40 * K4, segs, seed=700 + k)
+            fd = os.open(p, os.O_RDWR)
+            os.posix_fallocate(fd, base_, 16 * K4)
+            os.pwrite(fd, fsutil.lcg_bytes(8 * K4, 900 + k), base_ + 8 * K4)
+            os.fsync(fd); os.close(fd)
+            segs = segs + [(base_ + 8 * K4, base_ + 16 * K4)]
+            ext = fsutil.fiemap(p); sk = fsutil.seek_segments(p); ext3 = [(a, b, s_) for a, b, s_, _ in ext]
+            ctx.count('file.touching_extents_at_page_boundary')
+            reqs_p += [f'file-extents {p}', f'file-segments {p}', f'file-sparse {p}']
+            st = os.stat(p)
+            reqs_m += [f'pages 32 {fmt(ext3)}', 'segments %d %s' % (base_ + 40 * K4, ' '.join(f'{a}-{b}u' for a, b in sk)), f'sparse {st.st_blocks} {st.st_size}']
+            meta.append((p, base_ + 40 * K4, segs, ext3, sk))
         impl = core.ask(probe, reqs_p)
         model = core.ask(core.MODEL, reqs_m)
         for i, (p, length, segs, ext3, sk) in enumerate(meta):
